@@ -67,6 +67,10 @@ def optimize(expr):
             op = expr[0]
             if op in [Operator.QUOTE, Operator.QUASIQUOTE]:
                 pass
+            elif op == Operator.GROUPS:
+                # groups evaluates an operand that is a list form and takes a bare symbol as a name:
+                # rewriting (do s) to s would turn the one into the other
+                pass
             elif op == Operator.IF:
                 expr = WList(list(map(optimize, expr)), line_info=expr.line_info)
                 if (expr[1] is True) or isinstance(expr[1], (int, float, str)):
